@@ -483,12 +483,20 @@ func runReplay(path string, verbose bool) int {
 	// two independent replays must agree exactly
 	sigs1, log1, err1 := replayOnce(rs, rf.Trace)
 	sigs2, log2, err2 := replayOnce(rs, rf.Trace)
+	detClause := rf.Clause == "deterministic-replay" || rf.Clause == "independent-of-map-iteration-order"
 	if err1 != nil || err2 != nil {
+		if detClause {
+			// the recorded path cannot be followed again: the same actions from the same state gave another state
+			if verbose {
+				fmt.Println("replay diverged from the recorded path (", err1, err2, "): the recorded nondeterminism is reproduced")
+			}
+			return 1
+		}
 		fmt.Fprintln(os.Stderr, "replay diverged:", err1, err2)
 		return 2
 	}
 	if canonLog(log1, sigs1) != canonLog(log2, sigs2) {
-		if rf.Clause == "deterministic-replay" {
+		if detClause {
 			if verbose {
 				fmt.Println("two replays of the same trace differ: the recorded nondeterminism is reproduced")
 			}
